@@ -1,4 +1,10 @@
-"""Prototype abstract interpreter over the layout domain (feasibility study for E2)."""
+"""E2: abstract interpreter over the layout / binding domain (DESIGN.md section 2).
+
+Evaluates the repo's own Python source (parsed with `ast`, never imported) on abstract values:
+which *role* (STATE / CONTROL / CALIB / READ(k) / DT) indexes each axis of each sequence and array,
+in which order, and (E3) the non-commutative normal form of matrix expressions.  Obligations are
+recorded at sinks (execute() calls, zips, slot stores, un-flatten nests, matrix products, ...).
+"""
 from __future__ import annotations
 
 import ast
@@ -9,6 +15,7 @@ from dataclasses import dataclass, field
 from typing import Any, Dict, List, Optional
 
 from .values import *  # noqa
+from .matform import MatForm, Scalar
 
 REPO = os.environ.get("FV_REPO", "/repo")
 PKG = "py/formak"
@@ -19,9 +26,13 @@ class Finding:
     rule: str
     where: str
     msg: str
+    file: str = ""
+    func: str = ""
+    construct: str = ""
+    line: Optional[int] = None
 
     def key(self):
-        return (self.rule, self.where.rsplit(":", 1)[0])
+        return (self.rule, self.file, self.func, self.construct)
 
     def __str__(self):
         return f"[{self.rule}] {self.where}: {self.msg}"
@@ -33,6 +44,10 @@ class Obligation:
     where: str
     fact: str
     ok: bool
+    file: str = ""
+    func: str = ""
+    line: Optional[int] = None
+    data: Any = None
 
 
 class Join(V):
@@ -91,12 +106,16 @@ class Env:
         self.self_obj = self_obj
         self.returns: List[Any] = []
         self.yields: List[Any] = []
+        self.path: List[Any] = []            # enclosing branch conditions: (ast test, polarity, evaluated value)
+        self.return_paths: List[Any] = []
 
     def fork(self):
         e = Env(self.module, self.func, self.cls, self.self_obj)
         e.vars = dict(self.vars)
         e.returns = self.returns
         e.yields = self.yields
+        e.path = list(self.path)
+        e.return_paths = self.return_paths
         return e
 
     def merge(self, a: "Env", b: "Env"):
@@ -114,14 +133,21 @@ class Program:
         self.funcs: Dict[str, Dict[str, ast.FunctionDef]] = {}
         self.classes: Dict[str, Dict[str, ast.ClassDef]] = {}
         self.paths: Dict[str, str] = {}
-        for name in ["python", "common", "cpp", "ast_fragments", "runtime"]:
+        self.assigns: Dict[str, Dict[str, ast.expr]] = {}
+        self.sources: Dict[str, str] = {}
+        for name in ["python", "common", "cpp", "ast_fragments", "runtime", "ui_model"]:
             path = os.path.join(repo, PKG, name + ".py")
             src = open(path).read()
             tree = ast.parse(src, filename=path)
             self.modules[name] = tree
+            self.sources[name] = src
             self.paths[name] = os.path.relpath(path, repo)
             self.funcs[name] = {n.name: n for n in tree.body if isinstance(n, ast.FunctionDef)}
             self.classes[name] = {n.name: n for n in tree.body if isinstance(n, ast.ClassDef)}
+            self.assigns[name] = {}
+            for n in tree.body:
+                if isinstance(n, ast.Assign) and len(n.targets) == 1 and isinstance(n.targets[0], ast.Name):
+                    self.assigns[name][n.targets[0].id] = n.value
 
     def method(self, module, cls, name) -> Optional[ast.FunctionDef]:
         c = self.classes[module].get(cls)
@@ -136,6 +162,23 @@ class Program:
 NP_NAMES = {"np", "numpy"}
 
 
+def fT(a):
+    return a.form.T() if getattr(a, "form", None) is not None else None
+
+
+def fbin(op, a, b):
+    fa, fb = getattr(a, "form", None), getattr(b, "form", None)
+    if fa is None or fb is None:
+        return None
+    if op == "@":
+        return fa * fb
+    if op == "+":
+        return fa + fb
+    if op == "-":
+        return fa - fb
+    return None
+
+
 class Interp:
     def __init__(self, prog: Program):
         self.p = prog
@@ -144,21 +187,42 @@ class Interp:
         self.loop_ids = itertools.count(1)
         self.depth = 0
         self.notes: List[str] = []
+        self.undecided_sites: List[Any] = []
+        self.calls: List[Any] = []          # (callee qualified name, arg values, where) for repo-method calls
+        self.modenv: Dict[str, Env] = {}
+        self.opaque: Dict[str, str] = {}     # qualified method name -> atom name given to its (array) result
+        self.events: List[Any] = []          # stores to attributes / attribute containers and returns, in evaluation order
+        self._last_test = None
 
     # ------------------------------------------------------------------ utils
     def where(self, env: Env, node) -> str:
         q = f"{env.cls}.{env.func}" if env.cls else env.func
         return f"{self.p.paths.get(env.module, env.module)}:{q}:{getattr(node, 'lineno', '?')}"
 
+    def _loc(self, env, node):
+        q = f"{env.cls}.{env.func}" if env.cls else env.func
+        try:
+            construct = ast.unparse(node)
+        except Exception:
+            construct = type(node).__name__
+        construct = " ".join(construct.split())[:160]
+        return self.p.paths.get(env.module, env.module), q, construct, getattr(node, "lineno", None)
+
     def report(self, rule, env, node, msg):
-        f = Finding(rule, self.where(env, node), msg)
-        if not any(str(g) == str(f) for g in self.findings):
+        file, q, construct, line = self._loc(env, node)
+        f = Finding(rule, self.where(env, node), msg, file, q, construct, line)
+        if not any(g.key() == f.key() for g in self.findings):
             self.findings.append(f)
 
-    def oblige(self, rule, env, node, fact, ok, msg=""):
-        self.obligations.append(Obligation(rule, self.where(env, node), fact, ok))
+    def oblige(self, rule, env, node, fact, ok, msg="", data=None):
+        file, q, construct, line = self._loc(env, node)
+        self.obligations.append(Obligation(rule, self.where(env, node), fact, ok, file, q, line, data))
         if not ok:
             self.report(rule, env, node, msg or fact)
+
+    def undecided(self, rule, env, node, why):
+        """an obligation site whose operands could not be evaluated (=> ANALYSIS-ERROR if required)"""
+        self.undecided_sites.append((rule, self.where(env, node), why))
 
     # ------------------------------------------------------------- statements
     def ex_block(self, stmts, env: Env):
@@ -202,9 +266,16 @@ class Interp:
             obj = self.ev(target.value, env)
             if isinstance(obj, ObjV):
                 obj.attrs[target.attr] = v
+            self.events.append({"kind": "store", "func": (f"{env.cls}.{env.func}" if env.cls else env.func),
+                                "target": ast.unparse(target), "value": v, "path": list(env.path),
+                                "seq": len(self.events), "line": getattr(stmt, "lineno", None)})
         elif isinstance(target, ast.Subscript):
             obj = self.ev(target.value, env)
             self.store_subscript(obj, target, v, env, stmt)
+            if isinstance(target.value, ast.Attribute):
+                self.events.append({"kind": "store", "func": (f"{env.cls}.{env.func}" if env.cls else env.func),
+                                    "target": ast.unparse(target), "value": v, "path": list(env.path),
+                                    "seq": len(self.events), "line": getattr(stmt, "lineno", None)})
 
     def destructure(self, v, n):
         if isinstance(v, TupleV) and len(v.items) == n:
@@ -292,7 +363,7 @@ class Interp:
         arr.cols = pref if pref is not None else Unknown("cols")
 
     def ex_If(self, s, env: Env):
-        self.ev(s.test, env)
+        self._last_test = self.ev(s.test, env)
         t = s.test
         if isinstance(t, ast.Compare) and len(t.ops) == 1 and isinstance(t.ops[0], (ast.Is, ast.IsNot)) \
                 and isinstance(t.comparators[0], ast.Constant) and t.comparators[0].value is None and isinstance(t.left, ast.Name):
@@ -302,8 +373,11 @@ class Interp:
                 take_body = is_none if isinstance(t.ops[0], ast.Is) else not is_none
                 self.ex_block(s.body if take_body else s.orelse, env)
                 return
+        tv = self.ev(s.test, env) if False else self._last_test
         a = env.fork()
         b = env.fork()
+        a.path.append((s.test, True, tv))
+        b.path.append((s.test, False, tv))
         self.refine(s.test, a, True)
         self.ex_block(s.body, a)
         self.ex_block(s.orelse, b)
@@ -325,7 +399,11 @@ class Interp:
             if isinstance(t.args[0], ast.Name):
                 cls = self.ev(t.args[1], env)
                 if isinstance(cls, NCls):
-                    env.vars[t.args[0].id] = NInst(cls)
+                    cur = env.vars.get(t.args[0].id)
+                    if isinstance(cur, NInst) and cur.cls == cls:
+                        pass  # keep the provenance of an already-typed value
+                    else:
+                        env.vars[t.args[0].id] = NInst(cls, origin=f"param:{t.args[0].id}")
                 elif isinstance(cls, Const) and cls.value is float and t.args[0].id == "dt":
                     env.vars["dt"] = SymV("DT")
             return
@@ -343,7 +421,11 @@ class Interp:
         self.ex_block(s.body, env)
 
     def ex_Return(self, s, env: Env):
-        env.returns.append(self.ev(s.value, env) if s.value is not None else Const(None))
+        v = self.ev(s.value, env) if s.value is not None else Const(None)
+        env.returns.append(v)
+        env.return_paths.append(list(env.path))
+        self.events.append({"kind": "return", "func": (f"{env.cls}.{env.func}" if env.cls else env.func), "value": v,
+                            "path": list(env.path), "seq": len(self.events), "line": s.lineno})
 
     def ex_Raise(self, s, env):
         return
@@ -469,6 +551,16 @@ class Interp:
             return FuncV(self.p.funcs[mod][n.id], mod)
         if n.id in self.p.classes.get(mod, {}):
             return ClassV(mod, n.id)
+        if n.id in self.p.assigns.get(mod, {}):
+            menv = self.modenv.setdefault(mod, Env(mod))
+            if n.id not in menv.vars:
+                menv.vars[n.id] = Unknown("recursive module assign")
+                menv.vars[n.id] = self.ev(self.p.assigns[mod][n.id], menv)
+            return menv.vars[n.id]
+        if n.id in ("sqrt", "floor", "ceil", "fabs"):
+            return Const(("math", n.id))
+        if n.id == "namedtuple":
+            return Const(("collections", "namedtuple"))
         if n.id in ("np", "numpy"):
             return ModuleV("np")
         if n.id == "Matrix":
@@ -524,7 +616,10 @@ class Interp:
         if isinstance(base, NInst):
             if attr == "data":
                 L = base.cls.layout
-                return ArrV(L, ONE if base.cls.kind == "vec" else L, origin="data")
+                if base.arr is not None and isinstance(base.arr, ArrV):
+                    return base.arr
+                form = MatForm.atom(base.origin, base.cls.kind == "cov") if base.origin else None
+                return ArrV(L, ONE if base.cls.kind == "vec" else L, origin="data", form=form)
             if attr == "shape":
                 L = base.cls.layout
                 return TupleV((L.size(), SizeV.const(1) if base.cls.kind == "vec" else L.size()))
@@ -536,7 +631,7 @@ class Interp:
             return ("BOUND", base, attr)
         if isinstance(base, ArrV):
             if attr == "T":
-                return ArrV(base.cols, base.rows, origin="T")
+                return ArrV(base.cols, base.rows, origin="T", form=fT(base))
             if attr == "shape":
                 return TupleV((axis_size(base.rows), axis_size(base.cols)))
             if attr == "data":
@@ -544,6 +639,8 @@ class Interp:
             return ("BOUND", base, attr)
         if isinstance(base, ElemV) and attr == "name":
             return base
+        if isinstance(base, TupleV) and attr in base.names:
+            return base.items[base.names.index(attr)]
         if isinstance(base, ConfigV):
             return Const(("config", attr))
         return ("BOUND", base, attr)
@@ -582,9 +679,10 @@ class Interp:
         return join(self.ev(n.body, env), self.ev(n.orelse, env))
 
     def ev_Compare(self, n, env):
-        self.ev(n.left, env)
-        for c in n.comparators:
-            self.ev(c, env)
+        l = self.ev(n.left, env)
+        rs = [self.ev(c, env) for c in n.comparators]
+        if len(rs) == 1 and (isinstance(l, (ScalV, ArrV)) or isinstance(rs[0], (ScalV, ArrV))):
+            return CmpV(type(n.ops[0]).__name__, l, rs[0])
         return Unknown("bool")
 
     def ev_BoolOp(self, n, env):
@@ -595,7 +693,7 @@ class Interp:
     def ev_UnaryOp(self, n, env):
         v = self.ev(n.operand, env)
         if isinstance(n.op, ast.USub) and isinstance(v, ArrV):
-            return v
+            return ArrV(v.rows, v.cols, origin="neg", form=(-v.form) if v.form is not None else None)
         return Unknown("unary")
 
     def ev_Starred(self, n, env):
@@ -649,6 +747,14 @@ class Interp:
                 return self.elementwise("+" if isinstance(op, ast.Add) else "-", a, b, env, node)
             if isinstance(op, ast.Mult):
                 return self.elementwise("*", a, b, env, node)
+        sa, sb = to_scalar(a), to_scalar(b)
+        if sa is not None and sb is not None and not (isinstance(a, Const) and isinstance(b, Const)):
+            if isinstance(op, ast.Add):
+                return ScalV(s=sa + sb)
+            if isinstance(op, ast.Sub):
+                return ScalV(s=sa - sb)
+            if isinstance(op, ast.Mult):
+                return ScalV(s=sa * sb)
         if isinstance(a, ArrV) and not isinstance(b, ArrV) and isinstance(op, (ast.Mult, ast.Div, ast.Add, ast.Sub)):
             return a
         if isinstance(b, ArrV) and not isinstance(a, ArrV) and isinstance(op, (ast.Mult, ast.Add, ast.Sub)):
@@ -662,7 +768,7 @@ class Interp:
         if known:
             self.oblige("ARR-MM", env, node, f"{a} @ {b}", ok,
                         f"matrix product of {a} and {b}: inner axes {a.cols} and {b.rows} differ")
-        return ArrV(a.rows, b.cols, origin="matmul")
+        return ArrV(a.rows, b.cols, origin="matmul", form=fbin("@", a, b))
 
     def elementwise(self, sym, a: ArrV, b: ArrV, env, node):
         known = all(is_layout(x) for x in (a.rows, a.cols, b.rows, b.cols))
@@ -674,7 +780,7 @@ class Interp:
             else:
                 self.oblige("ARR-EW", env, node, f"{a} {sym} {b}", ok,
                             f"`{sym}` between {a} and {b}: axes differ, numpy would broadcast")
-        return ArrV(a.rows, a.cols, origin=sym)
+        return ArrV(a.rows, a.cols, origin=sym, form=fbin(sym, a, b))
 
     # -------- subscripts
     def ev_Subscript(self, n, env: Env):
@@ -716,8 +822,14 @@ class Interp:
             if isinstance(i, Const) and isinstance(i.value, int) and -len(base.items) <= i.value < len(base.items):
                 return base.items[i.value]
         if isinstance(base, ArrV):
-            return Unknown("array element")
+            i = self.ev(sl, env)
+            if isinstance(i, TupleV) and len(i.items) == 2 and all(isinstance(x, Const) and x.value == 0 for x in i.items):
+                return ScalV(m=base.form) if base.form is not None else Unknown("array element")
+            return self.array_slice(base, sl, i, env, n)
         return Unknown("subscript")
+
+    def array_slice(self, base, sl, i, env, n):
+        return Unknown("array element")
 
     def slice_seq(self, s: SeqV, sl: ast.Slice, env):
         lo = self.ev(sl.lower, env) if sl.lower else None
@@ -817,6 +929,17 @@ class Interp:
                 return self.call_np(f.value[1], args, kwargs, env, n)
             if f.value[0] == "sympy" and f.value[1] == "diff":
                 return ("DIFF", args[0], args[1])
+            if f.value[0] == "collections" and f.value[1] == "namedtuple":
+                fields = ()
+                if len(args) > 1 and isinstance(args[1], tuple) and args[1] and args[1][0] == "PYLIST":
+                    fields = tuple(a.value for a in args[1][1] if isinstance(a, Const))
+                nm = args[0].value if args and isinstance(args[0], Const) else ""
+                return NTClsV(nm, fields)
+            if f.value[0] == "math":
+                a0 = to_scalar(args[0]) if args else None
+                if f.value[1] == "sqrt" and a0 is not None:
+                    return ScalV(s=a0.sqrt())
+                return Unknown("math." + f.value[1])
             if f.value[0] == "sympy" and f.value[1] in ("simplify",):
                 return args[0]
             if f.value[0] == "sympy" and f.value[1] == "Matrix":
@@ -840,6 +963,12 @@ class Interp:
             return self.construct(f, args, kwargs, env, n)
         if isinstance(f, NCls):
             return self.construct_named(f, args, kwargs, starkw, env, n)
+        if isinstance(f, NTClsV):
+            items = list(args) + [None] * (len(f.fields) - len(args))
+            for k, v in kwargs.items():
+                if k in f.fields:
+                    items[f.fields.index(k)] = v
+            return TupleV(tuple(Unknown("missing field") if i is None else i for i in items), f.fields, f.name)
         if isinstance(f, tuple) and f and f[0] == "BOUND":
             return self.call_bound(f[1], f[2], args, kwargs, env, n)
         return Unknown("call")
@@ -982,10 +1111,10 @@ class Interp:
             return self.binop(ast.MatMult(), a, b, env, n)
         if name == "transpose":
             if isinstance(a0, ArrV):
-                return ArrV(a0.cols, a0.rows)
-        if name == "linalg.inv":
+                return ArrV(a0.cols, a0.rows, form=fT(a0))
+        if name in ("linalg.inv", "linalg.pinv"):
             if isinstance(a0, ArrV):
-                return ArrV(a0.cols, a0.rows, origin="inv")
+                return ArrV(a0.cols, a0.rows, origin="inv", form=a0.form.inv() if a0.form is not None else None)
         return Unknown("np." + name)
 
     def call_bound(self, base, attr, args, kwargs, env, n):
@@ -1001,7 +1130,7 @@ class Interp:
             return acc
         if isinstance(base, ArrV):
             if attr == "transpose":
-                return ArrV(base.cols, base.rows, origin="T")
+                return ArrV(base.cols, base.rows, origin="T", form=fT(base))
             if attr == "dot":
                 return self.binop(ast.MatMult(), base, args[0], env, n)
             if attr == "reshape":
@@ -1026,9 +1155,10 @@ class Interp:
             if attr == "from_data":
                 a0 = args[0] if args else kwargs.get("data")
                 self.check_from_data(base, a0, env, n)
-                return NInst(base)
+                return NInst(base, origin="from_data", arr=a0 if isinstance(a0, ArrV) else None)
             if attr == "from_dict":
-                return NInst(base)
+                self.check_from_dict(base, args[0] if args else None, env, n)
+                return NInst(base, origin="from_dict")
         if isinstance(base, BlockV) and attr == "execute":
             return self.check_execute(base, args, env, n)
         if isinstance(base, SeqV) and attr in ("append", "extend"):
@@ -1085,7 +1215,16 @@ class Interp:
                         f"{cls.name} built from names enumerated over {starkw.layout}, class layout is {cls.layout}")
         if "_data" in kwargs:
             self.check_from_data(cls, kwargs["_data"], env, n)
-        return NInst(cls)
+        return NInst(cls, origin="constructed")
+
+    def check_from_dict(self, cls: NCls, m, env, n):
+        """Cls.from_dict(mapping): keys are bound by str(name); the mapping's key role must be the class's role."""
+        if isinstance(m, MapV):
+            role = m.keyrole
+            segs = cls.layout.segs
+            ok = len(segs) == 1 and segs[0][0] == "SORT" and segs[0][1] == role
+            self.oblige("LAY-DICT", env, n, f"{cls.name}.from_dict(map keyed by {role}) into layout {cls.layout}", ok,
+                        f"{cls.name}.from_dict given a mapping keyed by {role}, class layout is {cls.layout}")
 
     # -------- repo functions / classes
     def bind(self, fn: ast.FunctionDef, args, kwargs, self_obj):
@@ -1125,6 +1264,9 @@ class Interp:
             self.ex_block(fn.body, e2)
         finally:
             self.depth -= 1
+        qn = f"{f.cls}.{fn.name}" if f.cls else fn.name
+        call_id = len(self.calls)
+        self.calls.append({"callee": qn, "args": dict(bound), "where": self.where(env, n) if env is not None and n is not None else "", "id": call_id})
         if e2.yields:
             return ("GENFN", tuple(e2.yields))
         if not e2.returns:
@@ -1132,6 +1274,14 @@ class Interp:
         acc = e2.returns[0]
         for r in e2.returns[1:]:
             acc = join(acc, r)
+        self.calls[call_id]["result"] = acc
+        self.calls[call_id]["returns"] = list(zip(e2.returns, e2.return_paths))
+        if qn in self.opaque:
+            nm = self.opaque[qn]
+            if isinstance(acc, ArrV):
+                acc = ArrV(acc.rows, acc.cols, origin=f"call:{qn}#{call_id}", form=MatForm.atom(nm))
+            elif isinstance(acc, NInst):
+                acc = NInst(acc.cls, origin=nm)
         return acc
 
     def construct(self, c: ClassV, args, kwargs, env, n):
@@ -1191,6 +1341,29 @@ def _jac_check(self, yields, env, n):
 Interp.check_cpp_statements = _jac_check
 
 BUILTINS = {"sorted", "list", "set", "len", "range", "enumerate", "zip", "str", "float", "dict", "isinstance", "print", "abs", "min", "max", "any", "all", "int", "tuple", "type", "iter", "map", "filter", "locals"}
+
+
+def to_scalar(v):
+    """commutative normal form of a scalar-valued abstract value, or None"""
+    if isinstance(v, ScalV):
+        return v.s
+    if isinstance(v, Const):
+        if isinstance(v.value, bool):
+            return None
+        if isinstance(v.value, (int, float)):
+            try:
+                return Scalar.const(v.value if isinstance(v.value, int) else __import__("fractions").Fraction(str(v.value)))
+            except Exception:
+                return None
+        if isinstance(v.value, tuple) and v.value and v.value[0] == "config":
+            return Scalar.atom("config." + v.value[1])
+        return None
+    if isinstance(v, SizeV):
+        acc = Scalar.const(v.k)
+        for r, c in v.terms:
+            acc = acc + Scalar.const(c) * Scalar.atom("|" + (f"{r[0]}({r[1]})" if isinstance(r, tuple) else str(r)) + "|")
+        return acc
+    return None
 
 
 def terminates(stmts):
